@@ -27,7 +27,7 @@ def run_demo(d, release=False):
     shutil.copytree(demo, work)
     ct = os.path.join(work, 'Cargo.toml')
     t = open(ct).read()
-    t = re.sub(r'path\s*=\s*"/tmp/wt_C\d+"', 'path = "/repo"', t)
+    t = re.sub(r'path\s*=\s*"/tmp/wts?_C\d+"', 'path = "/repo"', t)
     open(ct, 'w').write(t)
     rc, out = sh('cargo run --offline -q %s' % ('--release' if release else ''), cwd=work, env={'CARGO_TARGET_DIR': TGT}, timeout=1800)
     return rc, out[-600:]
